@@ -78,7 +78,7 @@ impl PartialEq for AuxMap {
 ///
 /// This determines the initial size of the auxiliary hash map
 /// based on the sketch size.
-fn lg_aux_arr_ints(lg_config_k: u8) -> u8 {
+pub(super) fn lg_aux_arr_ints(lg_config_k: u8) -> u8 {
     static LG_AUX_ARR_INTS: &[u8] = &[
         0, 2, 2, 2, 2, 2, 2, 3, 3, 3, // 0-9
         4, 4, 5, 5, 6, 7, 8, 9, 10, 11, // 10-19
